@@ -591,6 +591,104 @@ fn run_op(w: &mut World, op: &Value) -> Value {
             let (de, ie) = with_state(|s| (s.syncing_state.num_block_deserialize_errors, s.syncing_state.num_insert_block_errors));
             json!({"tree": ids, "deserialize_errors": de, "insert_errors": ie, "trap": trap})
         }
+        "sliced_ingest" => {
+            use ic_btc_canister::runtime::verif_hooks as vh;
+            // kinds: "A" -> address 7, "B" -> address 8, "" -> non-standard script, "OP_RETURN"
+            let spk = |k: &str| -> bitcoin::ScriptBuf {
+                match k {
+                    "A" => address(7).script_pubkey(),
+                    "B" => address(8).script_pubkey(),
+                    "OP_RETURN" => bitcoin::ScriptBuf::from_bytes(vec![0x6a, 0x01, 0x42]),
+                    _ => bitcoin::ScriptBuf::from_bytes(vec![0x51]),
+                }
+            };
+            let mk_tx = |inputs: Vec<bitcoin::OutPoint>, outs: Vec<(u64, String)>, salt: u32| -> bitcoin::Transaction {
+                let input = if inputs.is_empty() {
+                    vec![bitcoin::TxIn { previous_output: bitcoin::OutPoint::null(), script_sig: bitcoin::ScriptBuf::new(),
+                                         sequence: bitcoin::Sequence(0xffffffff), witness: bitcoin::Witness::new() }]
+                } else {
+                    inputs.into_iter().map(|o| bitcoin::TxIn { previous_output: o, script_sig: bitcoin::ScriptBuf::new(),
+                                         sequence: bitcoin::Sequence(0xffffffff), witness: bitcoin::Witness::new() }).collect()
+                };
+                bitcoin::Transaction { version: bitcoin::transaction::Version(1), lock_time: bitcoin::absolute::LockTime::from_consensus(salt),
+                    input, output: outs.iter().map(|(v, k)| bitcoin::TxOut { value: bitcoin::Amount::from_sat(*v), script_pubkey: spk(k) }).collect() }
+            };
+            let mk_block = |prev: &Header, txs: Vec<bitcoin::Transaction>| -> Block {
+                let mut b = BlockBuilder::with_prev_header(*prev);
+                for t in txs { b = b.with_transaction(t); }
+                let mut blk = Block::new(b.build());
+                blk.mock_difficulty = Some(1);
+                blk
+            };
+            ic_btc_canister::init(InitConfig { stability_threshold: Some(1), network: Some(Network::Regtest), api_access: Some(Flag::Enabled),
+                disable_api_if_not_fully_synced: Some(Flag::Disabled), ..Default::default() });
+            let genesis_hdr = with_state(|s| *unstable_blocks::get_main_chain(&s.unstable_blocks).tip().block().header());
+            // b2 creates the "stable" outputs in one coinbase
+            let stable: Vec<String> = op["stable"].as_array().unwrap().iter().map(|x| x[2].as_str().unwrap().to_string()).collect();
+            let cb2 = mk_tx(vec![], stable.iter().enumerate().map(|(i, k)| (1000 + 10 * i as u64, k.clone())).collect(), 2);
+            let b2 = mk_block(&genesis_hdr, vec![cb2.clone()]);
+            // b3: the block under test
+            let mut txs3: Vec<bitcoin::Transaction> = vec![];
+            for (ti, t) in op["spec"].as_array().unwrap().iter().enumerate() {
+                let mut ins = vec![];
+                for i in t["inputs"].as_array().unwrap() {
+                    if i[0].as_str() == Some("S") {
+                        ins.push(bitcoin::OutPoint { txid: cb2.compute_txid(), vout: i[1].as_u64().unwrap() as u32 });
+                    } else {
+                        ins.push(bitcoin::OutPoint { txid: txs3[i[1].as_u64().unwrap() as usize].compute_txid(), vout: i[2].as_u64().unwrap() as u32 });
+                    }
+                }
+                let outs = t["outputs"].as_array().unwrap().iter().enumerate().map(|(oi, k)| (5000 + 100 * ti as u64 + oi as u64, k.as_str().unwrap().to_string())).collect();
+                txs3.push(mk_tx(ins, outs, 300 + ti as u32));
+            }
+            let b3 = mk_block(b2.header(), txs3);
+            let b4 = mk_block(b3.header(), vec![mk_tx(vec![], vec![(1, "B".to_string())], 4)]);
+            for b in [b2.clone(), b3.clone()] {
+                with_state_mut(|s| unstable_blocks::push(&mut s.unstable_blocks, &s.utxos, b).unwrap());
+            }
+            vh::set_performance_counter_step(0);
+            vh::set_performance_counter(0);
+            with_state_mut(state::ingest_stable_blocks_into_utxoset);      // genesis and b2 become stable, anchor = b3
+            let query = |w: &World| -> Value {
+                let q = |a: u64| {
+                    let u = ic_btc_canister::get_utxos(GetUtxosRequest { address: w.addr_string(a), network: NetworkInRequest::Regtest, filter: None });
+                    let b = ic_btc_canister::get_balance(GetBalanceRequest { address: w.addr_string(a), network: NetworkInRequest::Regtest, min_confirmations: None });
+                    json!({"utxos": u.map(|r| (r.utxos.iter().map(|x| json!([x.outpoint.txid.to_string(), x.outpoint.vout, x.value, x.height])).collect::<Vec<_>>(), r.tip_height)).map_err(|e| format!("{:?}", e)).ok(),
+                           "balance": b.ok()})
+                };
+                json!({"A": q(7), "B": q(8), "utxos_length": ic_btc_canister::get_blockchain_info().utxos_length, "stable_height": with_state(|s| s.stable_height())})
+            };
+            let before = query(w);
+            with_state_mut(|s| unstable_blocks::push(&mut s.unstable_blocks, &s.utxos, b4).unwrap());
+            let with_child = query(w);      // the tip moved (b4), the view of b3's effects must not
+            let k = op["pause_every"].as_u64().unwrap_or(0);
+            vh::set_performance_counter_step(if k == 0 { 0 } else { 1_000_000_000 / k + 1 });
+            let mut rounds = 0;
+            let mut differs = vec![];
+            let mut trap: Option<String> = None;
+            loop {
+                rounds += 1;
+                vh::set_performance_counter(0);
+                let r = catch_unwind(AssertUnwindSafe(|| with_state_mut(state::ingest_stable_blocks_into_utxoset)));
+                match r {
+                    Err(e) => { trap = Some(e.downcast_ref::<String>().cloned().or_else(|| e.downcast_ref::<&str>().map(|s| s.to_string())).unwrap_or_default()); break; }
+                    Ok(ctypes::Slicing::Paused(())) => {
+                        vh::set_performance_counter_step(0);
+                        let mid = query(w);
+                        vh::set_performance_counter_step(if k == 0 { 0 } else { 1_000_000_000 / k + 1 });
+                        if mid["A"] != with_child["A"] || mid["B"] != with_child["B"] || mid["utxos_length"] != with_child["utxos_length"] {
+                            differs.push(json!({"round": rounds, "before": with_child.clone(), "during": mid}));
+                        }
+                    }
+                    Ok(ctypes::Slicing::Done(_)) => break,
+                }
+                if rounds > 200 { trap = Some("ingestion does not finish".to_string()); break; }
+            }
+            vh::set_performance_counter_step(0);
+            vh::set_performance_counter(0);
+            let after = query(w);
+            json!({"rounds": rounds, "differs": if differs.is_empty() { Value::Null } else { json!(differs) }, "trap": trap, "before": before, "after": after})
+        }
         "tree" => {
             let hashes = with_state(|s| unstable_blocks::get_block_hashes(&s.unstable_blocks));
             json!({"blocks": hashes.iter().map(|h| block_id_of(w, &h.to_vec())).collect::<Vec<_>>(),
